@@ -37,15 +37,20 @@ def session(rng, cid, n, aw):
     # some connections begin with a transfer that fails inside the copy loop (critical read of a directory handle)
     # and die; everybody else starts after them
     # (connection churn: they are sprinkled over the run of the others)
+    # (three barriers: start, start of the hammer phase, end.  Half of the failing transfers happen in the middle of the hammer
+    # phase, when every other connection has a pooled buffer in flight.)
     if cid % 4 == 0:
+        if cid % 8 == 0:
+            return [{"op": "BARRIER"}, {"op": "BARRIER"}, {"op": "OPEN_FILE", "path": "/pub", "delayMs": rng.randrange(0, 40)},
+                    {"op": "READ_FILE_CRITICAL", "limit": 65536, "off": 0}, {"op": "BARRIER"}]
         return [{"op": "BARRIER"}, {"op": "OPEN_FILE", "path": "/pub", "delayMs": rng.randrange(0, 2500)},
-                {"op": "READ_FILE_CRITICAL", "limit": 65536, "off": 0}, {"op": "BARRIER"}]
+                {"op": "READ_FILE_CRITICAL", "limit": 65536, "off": 0}, {"op": "BARRIER"}, {"op": "BARRIER"}]
     # others walk away in the middle of the reply to an ordinary read (the unsent rest must not reach anybody else)
     if cid % 4 == 2 and rng.random() < 0.7:
         return [{"op": "BARRIER"}, {"op": "OPEN_FILE", "path": "/pub/big.bin", "delayMs": rng.randrange(0, 2500)},
                 {"op": "READ_FILE", "limit": 4096, "off": 1000},
                 {"op": "READ_FILE", "limit": rng.choice([4096, 70000, 140000]), "off": rng.randrange(0, 100000), "abortAfter": rng.choice([1, 4, 5, 100, 3000])},
-                {"op": "BARRIER"}]
+                {"op": "BARRIER"}, {"op": "BARRIER"}]
     reqs.append({"op": "BARRIER"})
     for _ in range(n):
         r = rng.random()
@@ -88,13 +93,26 @@ def session(rng, cid, n, aw):
                 reqs += [{"op": "MKDIR", "path": "/priv%d/d%d" % (cid, k)}, {"op": "RMDIR", "path": "/priv%d/d%d" % (cid, k)}]
     # hammer: back-to-back critical transfers of this connection's "own" shared file, all connections at once
     f = ["big", "mid"][cid % 2]
+    reqs.append({"op": "BARRIER"})
+    # everybody builds the same two generated images at the same moment (directory scan, PARAM.SFO, encoders)
+    reqs += [{"op": "OPEN_FILE", "path": "/***PS3***/pub/game"}, {"op": "READ_FILE", "limit": 2048, "off": 2048},
+             {"op": "OPEN_FILE", "path": "/***DVD***/pub/img"}, {"op": "READ_FILE", "limit": 4096, "off": 32768}]
     reqs.append({"op": "OPEN_FILE", "path": "/pub/%s.bin" % f})
-    for _ in range(20):
+    for _ in range(30):
         want = rng.choice([65536, 70000, 131072]) if f == "big" else rng.choice([4096, 65536])
         reqs.append({"op": "READ_FILE_CRITICAL", "limit": want, "off": rng.randrange(0, sizes[f] - want)})
     # everybody waits for everybody, then looks at its own subtree once more
     reqs += [{"op": "BARRIER"}, {"op": "STAT_FILE", "path": "/priv%d" % cid}, {"op": "GET_DIR_SIZE", "path": "/priv%d" % cid}]
     return reqs
+
+
+def shorten(reqs, body, hammer):
+    """Fewer requests between the barriers (the barriers themselves stay: every connection passes all three)."""
+    cut = [i for i, r in enumerate(reqs) if r["op"] == "BARRIER"]
+    if len(cut) != 3:
+        return reqs
+    a, b, c = cut
+    return reqs[:a + 1] + reqs[a + 1:b][:body] + reqs[b:b + 1] + reqs[b + 1:c][:hammer + 1] + reqs[c:]
 
 
 def run(tier, seed, replay=None):
@@ -125,11 +143,20 @@ def run(tier, seed, replay=None):
                 conns = [{"id": c + 1, "reqs": session(rng, c + 1, 25 if not full else 40, aw)} for c in range(nconn)]
                 worlds.append({"name": "conc-%d-%d" % (nconn, rep_i), "aw": aw, "nodes": nodes, "views": [{"vk": "dvd", "p": ["pub", "img"]}, {"vk": "ps3", "p": ["pub", "game"]}],
                                "conns": conns, "schedule": "conc", "quiesce": True, "bufferSize": rng.choice([0, 0, 4096, 100000]),
-                               "writeDelayUs": rng.choice([0, 150, 400])})
+                               "writeDelayUs": 0 if nconn < 8 else rng.choice([150, 400])})      # (a peer that drains slowly keeps transfers overlapping)
         # GOMAXPROCS 1, 4, 16: the interleavings differ
         for procs in (["4"] if not full else ["1", "4", "16"]):
             os.environ["GOMAXPROCS"] = procs
             srv.run_and_validate(ctx, worlds, rep)
+        if not full:
+            # one scheduler thread: everything goes through one per-thread cache of the buffer pool (what one connection puts
+            # back, the next one takes)
+            os.environ["GOMAXPROCS"] = "1"
+            one = [json.loads(json.dumps(w)) for w in worlds[:2]]
+            for w in one:
+                w["name"] += "-p1"
+                w["writeDelayUs"] = 300
+            srv.run_and_validate(ctx, one, rep)
         # the same drivers on a -race build: a race report is an event outside the specification's alphabet
         os.environ["GOMAXPROCS"] = "8"
         rctx = srv.SrvCtx(scratch, race_harness, specdir, proto)
@@ -145,18 +172,14 @@ def run(tier, seed, replay=None):
                 w2["name"] += "-race"
                 if len(w2["conns"]) >= 32:
                     for cj in w2["conns"]:
-                        cut = [i for i, r in enumerate(cj["reqs"]) if r["op"] == "BARRIER"]
-                        if len(cut) >= 2 and cut[-1] - cut[0] > 30:
-                            cj["reqs"] = cj["reqs"][:cut[0] + 30] + cj["reqs"][cut[-1]:]
+                        cj["reqs"] = shorten(cj["reqs"], 20, 10)
                 rworlds.append(w2)
         else:
             # one 8-connection and one (shorter) 32-connection world: the race build is an order of magnitude slower
             short = json.loads(json.dumps(worlds[-1]))
             short["name"] += "-race"
             for cj in short["conns"]:
-                cut = [i for i, r in enumerate(cj["reqs"]) if r["op"] == "BARRIER"]
-                if len(cut) >= 2 and cut[-1] - cut[0] > 24:
-                    cj["reqs"] = cj["reqs"][:cut[0] + 24] + cj["reqs"][cut[-1]:]
+                cj["reqs"] = shorten(cj["reqs"], 14, 10)
             rworlds = [worlds[1], short]
         srv.run_and_validate(rctx, rworlds, rep)
         os.environ.pop("GOMAXPROCS", None)
